@@ -312,7 +312,7 @@ func (prop) Generate(r *core.RNG, tier string) []json.RawMessage {
 		named(item), {K: "ptr", Elem: named(item)}, named(list, named(item)), named(list, named(bitem)), named(pair, bt("string"), named(list, named(item))),
 		named(pair, named(pair, bt("int"), bt("string")), named(findNamed(pAO, "Color"))),
 		named(list, named(pair, named(pair, bt("int"), bt("string")), named(findNamed(pAO, "Color")))), // class nested_generic_arg_list
-		named(list, named(tri, named(list, bt("int")), bt("int"), bt("string"))),                    // class nested_generic_arg_list
+		named(list, named(tri, named(list, bt("int")), bt("int"), bt("string"))),                       // class nested_generic_arg_list
 		named(list, named(tri, bt("int"), bt("string"), named(list, bt("int")))),
 		named(box, named(bitem)), {K: "map", Key: named(findNamed(pAO, "Color")), Elem: &Ty{K: "ptr", Elem: named(findNamed("time", "Time"))}},
 		{K: "array", Len: 3, Elem: dur}, {K: "chan", Elem: &Ty{K: "chan", Elem: bt("int")}},
@@ -357,12 +357,15 @@ func (prop) Generate(r *core.RNG, tier string) []json.RawMessage {
 		n = 6000
 	}
 	for i := 0; i < n; i++ {
-		g := &gen{r: r, out: r.Chance(14)}
+		g := &gen{r: r, out: r.Chance(18)}
 		depth := 1 + r.Intn(4)
 		if r.Chance(40) {
 			depth = 3 + r.Intn(2)
 		}
 		t := g.ty(depth, false)
+		for k := 0; k < 8 && depth >= 3 && t.depth() < 3; k++ { // the requested depth is a bound; keep deep requests deep
+			t = g.ty(depth, false)
+		}
 		self, pre := g.target(t)
 		t = retarget(t, self)
 		if g.out {
